@@ -29,12 +29,14 @@ var payloads = []payload{
 	{"taut_num", "1 = 1", security.PatternTautology, security.SeverityCritical, "cond"},
 	{"taut_str", "'a' = 'a'", security.PatternTautology, security.SeverityCritical, "cond"},
 	{"taut_ident", "x = x", security.PatternTautology, security.SeverityCritical, "cond"},
+	{"taut_bool", "TRUE = TRUE", security.PatternTautology, security.SeverityCritical, "cond"},
 	{"sleep", "SLEEP ( 5 )", security.PatternTimeBased, security.SeverityHigh, "call"},
 	{"pg_sleep", "pg_sleep ( 5 )", security.PatternTimeBased, security.SeverityHigh, "call"},
 	{"benchmark", "BENCHMARK ( 1000 , a )", security.PatternTimeBased, security.SeverityHigh, "call"},
 	{"load_file", "LOAD_FILE ( '/etc/passwd' )", security.PatternOutOfBand, security.SeverityCritical, "call"},
 	{"xp_cmdshell", "xp_cmdshell ( 'dir' )", security.PatternOutOfBand, security.SeverityCritical, "call"},
-	{"sp_executesql", "sp_executesql ( 'x' )", security.PatternOutOfBand, security.SeverityCritical, "call"},
+	{"sp_executesql", "sp_executesql ( 'x' )", security.PatternDangerousFunc, security.SeverityCritical, "call"},
+	{"exec", "EXEC ( 'x' )", security.PatternDangerousFunc, security.SeverityCritical, "call"},
 	{"union_nulls", "UNION SELECT NULL , NULL", security.PatternUnionBased, security.SeverityHigh, "union"},
 	{"union_info_schema", "UNION SELECT a FROM information_schema . tables", security.PatternUnionBased, security.SeverityCritical, "union"},
 	{"union_pg_catalog", "UNION SELECT a FROM pg_catalog . pg_tables", security.PatternUnionBased, security.SeverityCritical, "union"},
@@ -327,6 +329,8 @@ func relayout(rt *rapid.T, tmpl, payload string, cond bool) string {
 			}
 		} else if rapid.IntRange(0, 3).Draw(rt, "fncase") == 0 && strings.Contains(payload, t) && !strings.HasPrefix(t, "'") && len(t) > 2 {
 			t = strings.ToUpper(t) // function names are case-insensitive
+		} else if payload == "x = x" && t == "x" && rapid.IntRange(0, 2).Draw(rt, "identcase") == 0 {
+			t = "X" // so are unquoted column names: X = x compares a column with itself
 		}
 		b.WriteString(t)
 	}
